@@ -460,7 +460,7 @@ def _shards(tier):
 
 OBLIGATIONS_TAIL = [
     Ob("E2", E2, body_E2, "X", desc="a burst of writer(msg) calls while the wrapped destination is stuck inside a write: every call returns, nothing is lost or reordered", functions=["ThreadedWriter.__call__", "_reader", "stopService"],
-       twin=[{"twin_label": "large-burst"}], timeout={"quick": 100, "thorough": 300},
+       shards=lambda tier: [{"prefix": q} for q in enumerate_prefixes(body_E2, "X", {}, {}, 1)], twin=[{"twin_label": "large-burst"}], timeout={"quick": 100, "thorough": 300},
        bounds={"quick": "burst sizes {1, 2, 100, 1000, 1001, 2500, 6000} behind a write stalled on the 1st/2nd/3rd message, which then returns or raises; for bursts >= 100 the first 0, 10 or 40 writes of the burst raise; forced switches only (call granularity)"}),
 ]
 
